@@ -55,6 +55,8 @@ def run(tier, seed):
     chk.add_rule("C10.S.snapshot", ok, sites, failing)
     ok, sites, failing = frame.rule_tls(TLS)
     chk.add_rule("C10.S.tls", ok, sites, failing)
+    ok, sites, failing = frame.rule_closure_state()
+    chk.add_rule("C10.S.closure_state", ok, sites, failing)
     ok, sites, failing, inv = frame.rule_shared(ALLOWED_WRITERS)
     chk.add_rule("C10.S.shared", ok, sites, failing, detail=f"{len(inv)} module-level mutable bindings inventoried")
     r = lifo_overlap_finding()
